@@ -234,7 +234,7 @@ def _check(pid, P, tier, seed, bdir, ev):
         pids = set([pid] + list(P.get('include', [])))   # a property may rest on the functions/lemmas of others (e.g. C01 on key generation)
         serving = {}
         for f in meta['functions']:
-            if (pids & set(f.get('serves', []))) or (P.get('all_functions') and f['mode'] in ('verified', 'transparent')):
+            if (pids & set(f.get('serves', []))) or (P.get('all_functions') and (f['mode'] in ('verified', 'transparent') or (f['mode'] == 'assumed' and f.get('contract_file')))):
                 serving[f['key']] = f
         lemma_serving = {nm: t for nm, t in tags.items() if (pids & set(t['serves'])) or 'ALL' in t['serves']}
         # per-function accounting
